@@ -111,6 +111,35 @@ for known_ in (False, True):
     mk()
 
 
+@obligation('C16.propagate_cov.one_frame', functions=[f'{IMU}:IMUPreintegrator.propagate_cov'], timeout=300, max_paths=8,
+            note='rotation inputs abstract: Rk.matrix(), Rk.Jr(), Rij.matrix() are arbitrary 3x3 matrices (the congruence structure does not depend on them)')
+def cov_one(env):
+    """one frame, arbitrary symmetric prior covariance C0:  C1 = A C0 A^T + (Bg Cg Bg^T + Ba Ca Ba^T) / dt  with the documented A, Bg, Ba -
+    a congruence of the prior plus a Gram term, hence symmetric (and PSD for PSD C0 and non-negative sensor covariances)"""
+    imu = env.load(IMU); T = env.T
+    def M3(name): return T.stack([env.vec(f'{name}{i}', 3, regimes=('generic',)) for i in range(3)], 0)
+    class Rot:
+        def __init__(self, m, jr=None): self.m, self.jr = m, jr
+        def matrix(self): return self.m.reshape(1, 1, 3, 3)
+        def Jr(self): return self.jr.reshape(1, 1, 3, 3)
+        def __getitem__(self, idx): return self
+    Rk, Jr_, Rij, Ha = M3('Rk'), M3('Jr'), M3('Rij'), M3('Ha')
+    dt = env.scalar('dt', positive=True, regimes=('generic',))[0]
+    L0 = T.stack([env.vec(f'c{i}_', 9, regimes=('generic',)) for i in range(9)], 0)
+    C0 = L0 + L0.transpose(-1, -2)                       # arbitrary symmetric prior
+    cg, ca = env.vec('gyro_cov', 3, regimes=('generic',)), env.vec('acc_cov', 3, regimes=('generic',))
+    out = imu.IMUPreintegrator.propagate_cov(dict(dt=dt.reshape(1, 1, 1), Rk=Rot(Rk, Jr_), Rij=Rot(Rij), Ha=Ha.reshape(1, 1, 3, 3)),
+                                             C0.reshape(1, 9, 9), cg.reshape(1, 3), ca.reshape(1, 3))
+    C1 = out['cov'][0]
+    Z = T.zeros(3, 3) if env.sym else T.zeros(3, 3, dtype=C1.dtype)
+    I3 = T.eye(3) if env.sym else T.eye(3, dtype=C1.dtype)
+    A_ = T.cat([T.cat([Rk.transpose(-1, -2), Z, Z], 1), T.cat([-(Rij @ Ha) * dt, I3, Z], 1), T.cat([-(Rij @ Ha) * dt * dt / 2, I3 * dt, I3], 1)], 0)
+    Bg = T.cat([Jr_ * dt, Z, Z], 0); Ba = T.cat([Z, Rij * dt, Rij * dt * dt / 2], 0)
+    ref = A_ @ C0 @ A_.transpose(-1, -2) + (Bg @ T.diag(cg) @ Bg.transpose(-1, -2) + Ba @ T.diag(ca) @ Ba.transpose(-1, -2)) / dt
+    env.eq('C1 = A C0 A^T + (Bg Cg Bg^T + Ba Ca Ba^T) / dt', C1, ref)
+    env.eq('C1 is symmetric for every symmetric prior', C1, C1.transpose(-1, -2))
+
+
 @obligation('C16.ranks', functions=[f'{IMU}:IMUPreintegrator.forward', f'{IMU}:IMUPreintegrator._check'], timeout=300, max_paths=8)
 def ranks(env):
     """input ranks (H), (F,H), (B,F,H) are equivalent"""
@@ -190,6 +219,10 @@ def seqref(rng, tier):
             last = None; lo = 0
             for hi in cut + [F]:
                 last = itg(dt[:, lo:hi], gyro[:, lo:hi], acc[:, lo:hi]); lo = hi
+            covc = last['cov'].to(d)           # the covariance carried over the chunks (non-zero prior from the second chunk on)
+            symc = float((covc - covc.mT).abs().max()) / (1e-300 + float(covc.abs().max()))
+            minc = float(torch.linalg.eigvalsh((covc + covc.mT) / 2).min()) / (1e-300 + float(covc.abs().max()))
+            if symc > 1e-5 or minc < -1e-5: fails.append(dict(clause='imu_covariance_symmetric_psd', signature=f'chunked F={F},cuts={cut}', asym=symc, mineig=minc))
             e2 = float((last['pos'][:, -1] - one['pos'][:, -1]).abs().max()) / (1 + float(one['pos'][:, -1].abs().max()))
             if e2 > tol: fails.append(dict(clause='imu_chunking_invariant', signature=f'F={F},cuts={cut}', err=e2))
         if F in (1, 3, 7): samples.append(dict(F=F, B=B, err=err))
